@@ -106,28 +106,31 @@ theorem silent_when_stopped (b : Bot) (o : List Out) (h : b.isRinging = false) :
 the call "Look to". -/
 theorem only_look_to_starts (b : Bot) (m : Msg) (h : b.isRinging = false)
     (hm : m ≠ .call Generated.call_LOOK_TO) : (b.onMsg m).1.isRinging = false := by
+  have hb : ({ b with tower := b.tower.apply m } : Bot).isRinging = false := h
+  generalize hq : ({ b with tower := b.tower.apply m } : Bot) = q at hb
+  have hsize : ∀ x : Bot, x.isRinging = false → (x.onSizeChange).1.isRinging = false := by
+    intro x hx; simp only [Bot.onSizeChange]; split <;> simpa using hx
   cases m with
-  | bellRung state who => simp only [Bot.onMsg]; split <;> (try split) <;> simpa using h
-  | globalState state =>
-    simp only [Bot.onMsg, Bot.onSizeChange]; split <;> simpa using h
-  | userEntered id name => simpa [Bot.onMsg] using h
-  | userList users => simpa [Bot.onMsg] using h
+  | bellRung state who => simp only [Bot.onMsg, hq]; split <;> (try split) <;> exact hb
+  | globalState state => simp only [Bot.onMsg, hq]; exact hsize q hb
+  | userEntered id name => simp only [Bot.onMsg, hq]; exact hb
+  | userList users => simp only [Bot.onMsg, hq]; exact hb
   | sizeChange n =>
-    simp only [Bot.onMsg]
+    simp only [Bot.onMsg, hq]
     split
-    · simp only [Bot.onSizeChange]; split <;> simpa using h
-    · exact h
-  | assign bell user => simp only [Bot.onMsg]; split <;> simpa using h
+    · exact hsize q hb
+    · exact hb
+  | assign bell user => simp only [Bot.onMsg, hq]; exact hb
   | call c =>
     have hc : c ≠ Generated.call_LOOK_TO := fun e => hm (by rw [e])
-    simp only [Bot.onMsg, Bot.onCall, hc, beq_iff_eq, if_false]
+    simp only [Bot.onMsg, hq, Bot.onCall, hc, beq_iff_eq, if_false]
     split
-    · simp only [Bot.onGo]; split <;> simpa using h
+    · simp only [Bot.onGo]; split <;> first | simpa using hb | simpa using h
     · repeat' split
-      all_goals simpa using h
-  | userLeft id => simpa [Bot.onMsg] using h
+      all_goals first | simpa using hb | simpa using h
+  | userLeft id => simp only [Bot.onMsg, hq]; exact hb
   | setting kvs =>
-    simp only [Bot.onMsg]
+    simp only [Bot.onMsg, hq]
     split
     · have : ∀ (l : List (String × SVal)) (b : Bot), b.isRinging = false → (foldSettings b l).1.isRinging = false := by
         intro l
@@ -141,14 +144,14 @@ theorem only_look_to_starts (b : Bot) (m : Msg) (h : b.isRinging = false)
           simp only [Bot.onSetting]
           repeat' split
           all_goals simpa using hb
-      exact this kvs b h
-    · exact h
+      first | exact this kvs q hb | exact this kvs _ h
+    · first | exact hb | exact h
   | rowGen g =>
-    simp only [Bot.onMsg]
+    simp only [Bot.onMsg, hq]
     split
-    · split <;> simpa using h
-    · exact h
-  | stopTouch => simp only [Bot.onMsg]; split <;> simp [h]
+    · split <;> first | simpa using hb | simpa using h
+    · first | exact hb | exact h
+  | stopTouch => simp only [Bot.onMsg, hq]; split <;> first | simp [hb] | simp [h]
 
 /-! Non-vacuity: Stand during row 7 (backstroke) stops after row 7 (8 rows, even); during row 6 it
 stops after row 7 as well. -/
